@@ -23,7 +23,7 @@ Check c02_field_representation : forall cnt a v bi, enc_atom cenc cnt a v = Ok b
   | ABool, VN n => bi = [n] /\ n < 2
   | AChar8, VN n => bi = [n mod 256]
   | ACount w _, _ => bi = le_enc w (cnt mod pow256 w)
-  | AText k, VB bs => bi = firstn k bs ++ repeat 0 (k - length (firstn k bs))
+  | AText k z, VB bs => bi = write_text k z bs /\ length bi = k
   | ADur w scale, VN ms => bi = le_enc w (ms / scale) /\ ms / scale < pow256 w
   | _, _ => True
   end.
